@@ -22,6 +22,7 @@ func init() {
 		Rule: "Rebalancer(RoundRobin) with scripted meters (rating in [0,1], readiness) on the frozen clock: pools of 2-7 servers, configured weights from {1,2,3,5,100,1024,4096,5000}, back-off 1s/10s/60s, rating histories (one/many failing, recovering, flapping, all failing, ties), membership and re-weight operations at random points, 200-2000 requests with clock steps around the timer boundary; " +
 			"after every request the observed ServerWeight vector is checked for: range [1, max(4096,configured)], >= 1 back-off between changes, no outlier share increase at an adjustment with a non-trivial split (library's SplitFloat64(1.5,0,ratings)), configured weights right after membership changes, bounded progress P1 (outlier loses share within 2 back-offs) and P2 (proportional again within 6 adjustments / 9 back-offs); a smaller share runs the default code meters with failing backends; " +
 			"part conc (race detector, real clock, 1ms back-off, a Logger that yields inside every log call): requests finishing (and adjusting weights) race with re-weight / remove / add calls; at the quiescent point membership and weight range are checked, then with equal ratings and one request per 2 back-offs the weights must be proportional to the configured ones within 6 adjustments; " +
+			"the scripted backend lets time pass during a tenth of the requests (all instants of the oracle are request-end instants); part burst (race build, frozen clock): 8 requests finishing concurrently at one instant just past the back-off must leave the same weights as a twin that finishes them one after the other (at most one adjustment per back-off interval); " +
 			"non-trivial = history with >= 2 observed adjustments of which >= 1 with outliers; distinct by (weights, back-off, script)",
 		Assumptions: []string{"frozen library clock (hook)", "liveness restated as bounded progress on logical time (P1, P2) under the stated side conditions"},
 		Parts: []Part{
